@@ -131,6 +131,10 @@ type Record struct {
 	N        int               `json:"n,omitempty"`
 	// LateStamp: hook_start written after the occurrence that launched the call had ended (K corrected)
 	LateStamp bool `json:"late_stamp,omitempty"`
+	// Extensions used by mon-env (see ext.go); absent unless the lab's user asks for them.
+	Snap map[string]string `json:"snap,omitempty"` // hook_start: what Lab.OnProbe returned (variables the hook sees, samples)
+	G    int               `json:"g,omitempty"`    // goroutine that wrote the record (Lab.StampG)
+	Req  int               `json:"req,omitempty"`  // request id, for records added through Lab.Add
 }
 
 // ---------------------------------------------------------------- the lab
@@ -171,6 +175,11 @@ type Lab struct {
 	root      workflow.Role
 	anomalies int
 	gatedSeen int
+
+	// Optional extensions (ext.go). Set them right after NewLab, before the first transition.
+	OnProbe  func(ProbeInfo) ProbeAction // called by every verif.Probe() invocation before its hook_start record
+	OnRecord func(*Record)               // called for every record, under the lab's mutex, after Seq/G were set
+	StampG   bool                        // stamp every record with the id of the goroutine that wrote it
 
 	// PollInterval is the controller's polling period.
 	PollInterval time.Duration
@@ -294,7 +303,13 @@ func (l *Lab) add(r Record) int64 {
 func (l *Lab) addLocked(r Record) int64 {
 	r.Seq = vlib.Seq()
 	r.K = l.k
+	if l.StampG && r.G == 0 {
+		r.G = GoroutineID()
+	}
 	l.recs = append(l.recs, r)
+	if l.OnRecord != nil {
+		l.OnRecord(&l.recs[len(l.recs)-1])
+	}
 	return r.Seq
 }
 
